@@ -5,6 +5,7 @@ import math
 
 import numpy as np
 
+from .. import state
 from ..common import pick, run_cases, sk
 
 ID = "C07"
@@ -80,7 +81,7 @@ def run_case(case, ctx, mon):
     p, seed = case["p"], case["seed"]
     m = 1 << p
     pt = case.get("p_type")
-    mk = lambda: s.HyperLogLog(getattr(np, pt)(p) if pt else p, seed)  # noqa: E731
+    mk = lambda: state.maybe_relayout(s.HyperLogLog(getattr(np, pt)(p) if pt else p, seed))  # noqa: E731
     h = mk()
     n_parts = int(case.get("parts", 1))
     parts = [mk() for _ in range(n_parts)] if n_parts > 1 else None
